@@ -240,7 +240,11 @@ pub fn check_midp(proto: Proto, midp: u64, radi: u32, t_ns: u128) -> Result<(), 
         Proto::Ietf => (1_000_000_000, 5),
     };
     let m_ns = midp as u128 * unit_ns;
-    let diff = if m_ns > t_ns { m_ns - t_ns } else { t_ns - m_ns };
+    // "the clock reading expressed in whole units": the largest whole unit not exceeding the reading
+    if m_ns > t_ns {
+        return Err((format!("midpoint-later-than-clock|{}", proto.name()), format!("{}: MIDP {} (unit {} ns) lies {} ns after the clock reading {} ns it is supposed to express", proto.name(), midp, unit_ns, m_ns - t_ns, t_ns)));
+    }
+    let diff = t_ns - m_ns;
     if diff >= unit_ns {
         return Err((format!("midpoint-not-clock|{}", proto.name()), format!("{}: MIDP {} (unit {} ns) but the clock read {} ns: off by {} ns (>= one unit)", proto.name(), midp, unit_ns, t_ns, diff)));
     }
@@ -296,6 +300,10 @@ pub struct LiveCase {
     /// milliseconds to let the server age before each step
     pub waits_ms: Vec<u16>,
     pub reqs: Vec<StdReq>,
+    /// Some(p): every step's sentinel uses protocol p (true = IETF), so that the responder of the other protocol sees
+    /// byte-identical batches in consecutive steps (catches a signed response cached across batches)
+    #[serde(default)]
+    pub sentinel_ietf: Option<bool>,
 }
 
 fn sys_ns(t: SystemTime) -> u128 {
@@ -314,6 +322,7 @@ fn check_live(ctx: &mut Ctx, c: &LiveCase) -> Res {
         let step: Vec<Send> = c.reqs.iter().enumerate().map(|(i, q)| Send { sock: (i % 16) as u8, d: Dgram::Std(q.clone()) }).collect();
         let sent = materialize(&lab, &step, 16);
         let sends: Vec<(usize, Vec<u8>)> = sent.iter().map(|s| (s.sock, s.bytes.clone())).collect();
+        lab.force_sentinel = c.sentinel_ietf.map(|i| if i { Proto::Ietf } else { Proto::Classic });
         let res = match lab.step(&sends, sends.len()) {
             Ok(r) => r,
             Err(StepErr::Panic(p)) => return ctx.fail("process-events-panic", p),
@@ -379,9 +388,14 @@ pub fn run_c11(ctx: &mut Ctx) -> Vec<Violation> {
         check_clock(ctx, c)
     }));
     // live: young servers (many) and aged servers (few; each costs > 1 s of sleeping)
-    let young = (seed32(), prop::sample::select(vec![1u8, 3, 64]), proptest::collection::vec(0u16..3, 1..=3), proptest::collection::vec(std_req(), 1..=10)).prop_map(|(seed, batch_size, waits_ms, reqs)| LiveCase { seed, batch_size, waits_ms, reqs });
+    let young = (seed32(), prop::sample::select(vec![1u8, 3, 64]), proptest::collection::vec(0u16..3, 1..=3), proptest::collection::vec(std_req(), 1..=10)).prop_map(|(seed, batch_size, waits_ms, reqs)| LiveCase { seed, batch_size, waits_ms, reqs, sentinel_ietf: None });
     out.extend(run_prop(ctx, "live-young", t.pick(1_600, 30_000), 50, young, |ctx, c| check_live(ctx, c)));
-    let aged = (seed32(), prop::sample::select(vec![1u8, 64]), proptest::collection::vec(std_req(), 4..=24)).prop_map(|(seed, batch_size, reqs)| LiveCase { seed, batch_size, waits_ms: vec![1_050, 5, 400], reqs });
+    let aged = (seed32(), prop::sample::select(vec![1u8, 64]), any::<bool>(), 0u8..3).prop_flat_map(|(seed, batch_size, ietf, mode)| {
+        // mode 0: mixed requests, alternating sentinel; mode 1/2: requests of one protocol only and the sentinel pinned to the
+        // other protocol, so consecutive steps present byte-identical batches to one responder
+        let reqs = if mode == 0 { proptest::collection::vec(std_req(), 4..=24).boxed() } else { proptest::collection::vec(std_req_of(ietf), 1..=8).boxed() };
+        reqs.prop_map(move |reqs| LiveCase { seed: seed.clone(), batch_size, waits_ms: vec![1_050, 5, 400], reqs, sentinel_ietf: if mode == 0 { None } else { Some(!ietf) } })
+    });
     out.extend(run_prop(ctx, "live-aged", t.pick(32, 480), 0, aged, |ctx, c| {
         ctx.sample("live-aged", 1, &(c.batch_size, c.waits_ms.clone(), c.reqs.len()));
         check_live(ctx, c)
